@@ -146,7 +146,18 @@ def check_circuit(recipe, env, maxph, acc):
                 exp_alien = {lw.State(list(i)): [alien, lw.State(list(want_outputs[-1]))] for i in iset}
                 exp_dup = {lw.State(list(i)): [lw.State(list(want_outputs[0])), lw.State(list(want_outputs[-1])),
                                                lw.State(list(want_outputs[0]))] for i in iset}      # a state named twice
-                for elabel, emap in (("single", exp_single), ("list", exp_list), ("alien", exp_alien), ("repeated", exp_dup)):
+                maps = [("single", exp_single), ("list", exp_list), ("alien", exp_alien), ("repeated", exp_dup)]
+                # a different expectation per input, written in another order than the inputs, with an entry for an
+                # input that is not analysed (a complete truth table handed over with a subset of the inputs)
+                others = [i for i in ins if i not in iset]
+                exp_tt = {}
+                if others:
+                    exp_tt[lw.State(list(others[0]))] = lw.State(list(want_outputs[0]))
+                for a, i in reversed(list(enumerate(iset))):
+                    exp_tt[lw.State(list(i))] = lw.State(list(want_outputs[-1 if a == 0 else 0]))
+                if len(iset) == 2 or others:
+                    maps.append(("truth_table_other_order", exp_tt))
+                for elabel, emap in maps:
                     acc.tick("executions"); acc.tick("transitions")
                     r1 = emu.Analyzer(c)
                     r1.post_selection = pfac()
